@@ -10,16 +10,10 @@ from sa.poly import RF
 from sa.selftest import Edit, Variant
 from sa.sym import ClassRef, Cond, Interp, PyCallable, PyRaise, Rec, SymStr, explore, method_of, to_rf
 
-EXPLANATION = (
-    "Whether Skia's area is exactly zero for slivers is not decided. Decided: (verdict ladder) SVGShape.might_paint is interpreted on the full "
-    "product of display {none, inline} x fill {none, paint} x stroke {none, paint} x opacity/fill-opacity/stroke-opacity {0, positive} x "
-    "stroke-width {0, positive} x geometry {moves only, zero-length segment, ordinary} x area symbolic, plus the style-resolved display and "
-    "the Skia-error path, and its answer is compared with the reference predicate 'visible stroke, or visible fill with area > 0' - equality, "
-    "so it is neither too eager nor too shy, and the area comparison is with exact zero; (call sites) wherever the verdict deletes content the "
-    "receiver carries the paint of that content (the shape itself or a field-preserving copy); remove_unpainted_shapes deletes exactly the "
-    "shapes with a negative verdict; path_area builds the path with the caller's rule and reads the area after simplify(fix_winding)."
-)
-ASSUMPTIONS = ["Skia's area of the simplified path is > 0 exactly when the fill region is non-empty (slivers below Skia's resolution are out of reach)"]
+from sa.texts import T as _T
+
+EXPLANATION = _T["C18"]["explanation"] + " Not decided: " + _T["C18"]["not_decided"] + "."
+ASSUMPTIONS = _T["C18"]["assumptions"]
 P = "C18"
 S = RF.sym
 
